@@ -38,6 +38,13 @@ ASSUMPTIONS = [
     "qpos0) are skipped and counted: an automatic reset cannot contain those, the documentation promises a reset, not a cure",
     "which of qacc's elements are bad is decided on a twin by mj_forward (the forward dynamics itself is trusted here; "
     "only the check / warn / reset mechanism is under test)",
+    "ASan+UBSan subsample: UBSan float-cast-overflow reports located in mju_round (NaN cast to int while the pipeline runs on a "
+    "non-finite state) are counted (ubsan_float_cast_in_mju_round_outside_verdict) but are not violations: no clause of the "
+    "statement covers undefined behaviour and the cast has no observable effect (audit B2); every other sanitizer report is a "
+    "violation keyed by (kind, function)",
+    "a non-finite state after mj_step is reported under a mechanism signature (RK4 sub-stages / implicit non-finite qDeriv / raw "
+    "ctrl in qDeriv) only after that mechanism has been confirmed on the failing case by re-evaluation and counterfactual twins "
+    "(see classify_unchecked); otherwise under the generic 'nonfinite-<x>-after-step' signature",
 ]
 
 MAXV = float(E.mjMAXVAL)
